@@ -73,4 +73,36 @@ theorem rawOfInt32_reject (enc : Option Enc) (hk : int32Known enc = true) (bl : 
     | true => exact absurd ((rangeOk_iff enc bl hbl v).mp h) hr
   simp only [rawOfInt32, hk, hro, Bool.not_false, Bool.and_true, if_true, bind, OdxM.bind, odxraise]
 
+/-- raw patterns with a unique reading: all of them for two's complement; not "negative zero" for
+    one's complement (all ones) and sign-magnitude (sign bit only) -/
+def canonRaw (enc : Option Enc) (bl raw : Nat) : Prop :=
+  raw < 2 ^ bl ∧ (enc = some .onec → raw ≠ 2 ^ bl - 1) ∧ (enc = some .sm → raw ≠ 2 ^ (bl - 1))
+
+/-- **C03, atomic.** Interpreting a canonical raw pattern and encoding the result again gives the same raw
+    pattern, and the value is in the encoder's accepted range. -/
+theorem int32_raw_roundtrip (enc : Option Enc) (hk : int32Known enc = true) (bl : Nat) (hbl : 1 ≤ bl) (raw : Nat)
+    (hc : canonRaw enc bl raw) :
+    int32InRange enc bl (int32OfRaw enc bl raw) ∧ (int32Raw enc bl (int32OfRaw enc bl raw)).toNat = raw := by
+  have hp : (2:Int) ^ bl = 2 * 2 ^ (bl - 1) := pow_pred_double bl hbl
+  have hpn : (2:Nat) ^ bl = 2 * 2 ^ (bl - 1) := by
+    have : bl = (bl - 1) + 1 := by omega
+    conv => lhs; rw [this, Nat.pow_succ]
+    omega
+  have hpos : (0:Int) < 2 ^ (bl - 1) := Int.pow_pos (by decide)
+  have hc1 : ((2 ^ (bl - 1) : Nat) : Int) = (2:Int) ^ (bl - 1) := by simp
+  have hc2 : ((2 ^ bl : Nat) : Int) = (2:Int) ^ bl := by simp
+  have h1 : bl > 0 := by omega
+  obtain ⟨hlt, h1c, hsm⟩ := hc
+  unfold int32Known at hk
+  simp only [Bool.or_eq_true, decide_eq_true_eq] at hk
+  rcases hk with ((rfl | rfl) | rfl) | rfl
+  all_goals
+    simp only [int32InRange, int32Raw, int32OfRaw, h1, if_true, Option.some.injEq, reduceCtorEq, or_true, or_false,
+      if_false, forall_const, false_implies, true_or] at h1c hsm ⊢
+  all_goals
+    by_cases hs : raw < 2 ^ (bl - 1) <;> simp only [hs, if_true, if_false]
+  all_goals
+    refine ⟨?_, ?_⟩ <;> (try split) <;> omega
+
+
 end OdxVerif.Codec
